@@ -116,6 +116,26 @@ def gen_case(ctx):
     return {'q': q, 'qa': qa, 'hdr': hdr, 'A': A, 'hdrB': hdrB, 'B': B, 'hq': '(0 (%s) 0)' % ' '.join(hitems), 'expect_fail': fail}
 
 
+def gen_dup_case(ctx):
+    """DISTINCT over records that really repeat, whose values the CSV writer must quote or stringify (cells with the separator / a quote,
+    len(), NR-free ints): every front-end that ends in a CSV writer must still drop the repeats (seeded change C13-9: DISTINCT remembered
+    the record after the CSV writer had rewritten it in place; it had been caught by chance only)"""
+    r = ctx.rng
+    na = r.randint(1, 3)
+    hdr = r.sample(['id', 'name', 'val', 'grp', 'x1'], na)
+    pool = [[r.choice(['a,b', 'q"r', ',', '"', 'k', 'x y']) for _ in range(na)] for _ in range(2)]
+    A = [list(r.choice(pool)) for _ in range(r.randint(3, 6))]
+    items, texts, hitems = [], [], []
+    for _ in range(r.randint(1, 2)):
+        i = r.randint(0, na - 1)
+        if r.random() < 0.7:
+            items.append(('expr', ('fld', 'a', i))); texts.append('a%d' % (i + 1)); hitems.append('(0 0 %d)' % i)
+        else:
+            items.append(('expr', ('len', ('fld', 'a', i)))); texts.append('len(a%d)' % (i + 1)); hitems.append('(7)')
+    qa = {'kind': ('select', items), 'where': None, 'join': None, 'order': None, 'distinct': 1, 'top': None}
+    return {'q': 'select distinct ' + ', '.join(texts), 'qa': qa, 'hdr': hdr, 'A': A, 'hdrB': None, 'B': None, 'hq': '(0 (%s) 0)' % ' '.join(hitems), 'expect_fail': False}
+
+
 def model(cases):
     args = [qmodel.enc_run(0, c['qa'], None, c['A'], c['B'], None) for c in cases]
     mres = lib.run_model(300, args)
@@ -205,6 +225,7 @@ def describe(c, e, g):
 def run(ctx):
     n = 120 if ctx.tier == 'quick' else 10000
     cases = [gen_case(ctx) for _ in range(n)]
+    cases += [gen_dup_case(ctx) for _ in range(n // 10)]
     args, mres, exp = model(cases)
     ins = csv_render([[c['hdr']] + c['A'] for c in cases])
     joins = csv_render([([c['hdrB']] + c['B']) if c['B'] is not None else [] for c in cases])
@@ -226,12 +247,16 @@ def run(ctx):
             ctx.nontriv((c['q'], json.dumps(c['A']), json.dumps(c['B'])))
     # the sqlite entry points (library and command line) on cells with line breaks: the RFC dialect end to end
     __import__('importlib').import_module('props.c13s').run(ctx, THEOREM)
+    # the rbql-js command line and library next to the rbql-py command line on one query text, failures of every layer included (Error [type])
+    __import__('importlib').import_module('props.c13js').run(ctx, THEOREM)
     ctx.sample({'query': cases[0]['q'], 'header': cases[0]['hdr'], 'A': cases[0]['A'], 'model': exp[0],
                 'implementation': {k: got[0].get(k) for k in ('query_table', 'cli_stdio', 'sqlite')} if isinstance(got[0], dict) else got[0]})
     ctx.rule = ('type-agnostic queries over rectangular string tables with a header (fields as aN / a.name / a["name"], concatenation, literals, string comparisons; WHERE, ORDER BY, DISTINCT, TOP, '
                 'JOIN 25%%, failing queries 8%%) through 9 entry points {query_table, query + user iterator/writer/registry, query_csv, python -m rbql (file->file, stdin->stdout, '
                 '--out-format input/csv/tsv), query_pandas_dataframe, sqlite + query_sqlite_to_csv}; each compared with the model table and header; CLI: exit status, stdout carries only the table, '
-                'stderr `Error [` on failure; %d queries x 9 entry points; non-trivial = distinct case with rows or an error') % n
+                'stderr `Error [` on failure; %d queries x 9 entry points; plus (props/c13js.py) one query text through node rbql-js/cli_rbql.js (file and stdin/stdout), rbql-js query_csv and '
+                'python -m rbql, succeeding and failing at every layer (engine parsing / execution errors from the model, missing join file, undecodable input, bad delimiter / encoding): '
+                'outcome = Frontends.cli_outcome of the model result, `Error [type]` label included; non-trivial = distinct case with rows or an error') % n
     # adapter paths no other run reaches (bounded reads, _write_all, pandas join lookup, rbql-js writer failures) - coverage gaps, notes/covgap.md
     __import__('importlib').import_module('props.cov_csvmisc').run(ctx, THEOREM)
 
@@ -239,6 +264,8 @@ def run(ctx):
 def replay(ctx, case):
     if case.get('part') == 'cov_csvmisc':
         return __import__('importlib').import_module('props.cov_csvmisc').replay(ctx, case, THEOREM)
+    if case.get('part') == 'c13js':
+        return __import__('importlib').import_module('props.c13js').replay(ctx, case, THEOREM)
     if case.get('part') in ('c13s', 'c13mono'):
         return __import__('importlib').import_module('props.c13s').replay(ctx, case, THEOREM)
     args, mres, exp = model([case])
